@@ -44,6 +44,7 @@ SPACES = {
         ("X,E,G,S3,L<=3", ("X", "E", "G"), ("S3",), 3),
         ("E,G,B,S3,L<=3", ("E", "G", "B"), ("S3",), 3),
         ("X,B,S3,L<=3", ("X", "B"), ("S3",), 3),
+        ("E,S3,L<=4", ("E",), ("S3",), 4),      # smallest alphabet at length 4: nested shared sub-trees
     ],
     "thorough": [
         ("all5,S3+D4,L<=2", pg.LEAVES, ("S3", "D4"), 2),
@@ -119,8 +120,30 @@ def structure(op):
         elif under_node and not isinstance(o, FieldAdapter):
             leaf_ids[id(o)] = leaf_ids.get(id(o), 0) + 1
     rec(op, False)
-    return dict(nodes=len(node_ids), shared_nodes=sum(1 for v in node_ids.values() if v > 1),
-                shared_leaves=sum(1 for v in leaf_ids.values() if v > 1))
+    shared = {k for k, v in node_ids.items() if v > 1}
+
+    def node_descendants(o, acc):
+        if isinstance(o, (_OpSum, _OpProd)):
+            for c in (o._op1, o._op2):
+                for n in ([c] if not isinstance(c, _OpChain) else c._ops):
+                    if isinstance(n, (_OpSum, _OpProd)):
+                        acc.add(id(n))
+                        node_descendants(n, acc)
+        return acc
+    objs = {}
+
+    def collect(o):
+        if isinstance(o, (_OpSum, _OpProd)):
+            objs[id(o)] = o
+            collect(o._op1)
+            collect(o._op2)
+        elif isinstance(o, _OpChain):
+            for n in o._ops:
+                collect(n)
+    collect(op)
+    nested = any(shared & node_descendants(objs[k], set()) for k in shared)
+    return dict(nodes=len(node_ids), shared_nodes=len(shared),
+                shared_leaves=sum(1 for v in leaf_ids.values() if v > 1), nested_shared=bool(nested))
 
 
 def grid_points(keys, num):
@@ -290,8 +313,9 @@ def run(case):
                        detail=dict(features=feat))
         except Exception as exc:
             return bad("optimise_operator raised %r on a %s tree   [%s]" % (exc, tk, case["e"]),
-                       finding_key="raises|%s|%s|top=%s" % (_site(exc), _norm_msg(exc),
-                                                            "no-node" if st["nodes"] == 0 else "has-node"),
+                       finding_key="raises|%s|%s|top=%s" % (
+                           _site(exc), _norm_msg(exc),
+                           "no-node" if st["nodes"] == 0 else "has-node,nested_shared_nodes=%s" % st["nested_shared"]),
                        detail=dict(features=feat))
         if opt.domain is not op.domain or opt.target is not op.target:
             return bad("optimised operator has a different domain/target object   [%s]" % case["e"],
